@@ -278,6 +278,7 @@ def template_stream(chk, trees, E):
             meta.append((t, s_, ei))
     outs = core.run_node(reqs) if reqs else []
     nbad = 0
+    bad = []
     for k, (t, s_, ei) in enumerate(meta):
         g, r = outs[2 * k], outs[2 * k + 1]
         chk.evaluations += 1
@@ -286,10 +287,28 @@ def template_stream(chk, trees, E):
         tree = (g.get("snapshots") or [{}])[0].get("tree") or []
         got = (tree[0].get("attrs") or {}).get("title", {"$": "undefined"}) if tree and "error" not in g else {"error": g.get("error")}
         if canon(got) != canon(r["value"]):
-            nbad += 1
-            if nbad <= 3:
-                chk.violation("input", f"inside wx:for, {s_} hands the element {json.dumps(got)[:120]}, JavaScript gives {json.dumps(r['value'])[:120]}",
-                              template=s_, env=ei, classification="template-level")
+            bad.append((t, s_, ei, got, r["value"], reqs[2 * k + 1]["data"]))
+    # a mismatch is classified by the documented deviation (D14 array spread through concat, D26 hoisted operands evaluated eagerly) whose
+    # reference it agrees with, exactly as in the expression-level oracle
+    VARIANTS = [("array-spread-of-non-array", True, False), ("hoisted-operand-evaluated-eagerly", False, True),
+                ("array-spread-of-non-array+hoisted-operand-evaluated-eagerly", True, True)]
+    wrap = lambda body: ("(function(s0,TOSTR,SPREADOBJ){return " + body + "})(D[\"$$s0\"],function(a){return a==null?'':String(a)},function(a){return a==null?{}:a})")
+    lreqs = []
+    for (t, s_, ei, got, want, D2) in bad:
+        for (_, cs, ho) in VARIANTS:
+            lreqs.append({"op": "evalref", "data": D2, "expr": wrap(eg.js_ref_hoisted(t, None, cs) if ho else eg.js_ref(t, None, cs))})
+    louts = core.run_node(lreqs) if lreqs else []
+    for j, (t, s_, ei, got, want, D2) in enumerate(bad):
+        cls = "template-level"
+        threw = isinstance(got, dict) and "error" in got
+        for vi, (name, _, _) in enumerate(VARIANTS):
+            lo = louts[len(VARIANTS) * j + vi]
+            if (not threw and "value" in lo and canon(lo["value"]) == canon(got)) or (threw and ("throws" in lo or "error" in lo)):
+                cls = name
+                break
+        nbad += 1
+        chk.violation("input", f"inside wx:for, {s_} hands the element {json.dumps(got)[:120]}, JavaScript gives {json.dumps(want)[:120]}",
+                      template=s_, env=ei, classification=cls)
     chk.bump("oracle:template-level-evaluations", len(meta))
     chk.bump("oracle:template-level-mismatches", nbad)
 
